@@ -9,6 +9,9 @@ pub const NAMES: &[&str] = &[
     "type", "input", "on", "query", "fragment", "schema", "extend", "implements", "enum",
     "union", "interface", "scalar", "directive", "repeatable", "mutation", "subscription",
     "import", "from", "trueish", "nullable", "falsey", "Int", "String", "E", "FIELD", "A_B",
+    // names that merely start with a keyword (keyword guards such as !NameContinue matter)
+    "fromCache", "from_", "importAll", "onUser", "typeOf", "queryX", "fragmentX", "extendX",
+    "implementsX", "schemaX", "inputX", "nullX", "true_", "falseX", "repeatableX", "directiveX",
 ];
 pub const TYPE_NAMES: &[&str] = &[
     "Int", "String", "Boolean", "ID", "Float", "User", "Post", "Node", "Query", "T", "U", "E",
